@@ -19,6 +19,8 @@ def run(ck):
     from harness import gen
     tids = gen.Tids()
     progs = fuse.fuse_programs(ck.seed, 240 if q else 4000, tids=tids)
+    from harness.drivers import history
+    progs += history.derived_programs(ck.seed, 40 if q else 800, tids=tids)
     progs += fuse.single_group_programs(ck.seed, 80 if q else 1500, tids=tids)
     ck.cov["rule"] = ("random sparse abelian/fermionic arrays of rank 2-4, 1-2 disjoint groups (single-axis, permuted, "
                       "non-adjacent, nested), both strategies, cache off/one/cold; relocation read back through the "
